@@ -85,6 +85,13 @@ impl SemanticState {
             path.display(),
             base_path.display()
         );
+        // The module path is made of the file's path as text: a name that is not text has
+        // none (converted lossily, two such files would even share one).
+        anyhow::ensure!(
+            relative_path.to_str().is_some(),
+            "cannot derive a module path for {}: the path is not valid UTF-8",
+            path.display()
+        );
         let text = std::fs::read_to_string(path)
             .with_context(|| format!("failed to read {}", path.display()))?;
         self.add_module(
